@@ -16,6 +16,16 @@ import (
 // ErrInjected is the error every injected fault reports.
 var ErrInjected = errors.New("injected fault")
 
+// eofNamed is a failure whose text is "EOF" but which is not io.EOF.
+type eofNamed struct{}
+
+func (eofNamed) Error() string { return "EOF" }
+
+// ReadErrors are the failures a reader is made to report: by the io.Reader contract only the value io.EOF
+// itself means a clean end of the stream; an error that merely wraps it, is named like it or is
+// io.ErrUnexpectedEOF is a failure.
+var ReadErrors = []error{ErrInjected, ErrInjected, io.ErrUnexpectedEOF, fmt.Errorf("connection lost: %w", io.EOF), eofNamed{}}
+
 // Call is one recorded Exec.
 type Call struct {
 	Query string
